@@ -5,12 +5,16 @@ use crate::query::Query;
 
 impl Query for JpQuery {
     fn process<'a, T: Queryable>(&self, state: State<'a, T>) -> State<'a, T> {
+        #[cfg(jsonpath_rust_verif)]
+        crate::verif::point(14);
         self.segments.process(state)
     }
 }
 
 impl Query for Vec<Segment> {
     fn process<'a, T: Queryable>(&self, state: State<'a, T>) -> State<'a, T> {
+        #[cfg(jsonpath_rust_verif)]
+        crate::verif::point(15);
         self.iter()
             .fold(state, |next, segment| segment.process(next))
     }
